@@ -39,6 +39,20 @@ MUTS = [
   "	dst.blockedAccounts = slices.Clone(src.blockedAccounts)\n", ""),
  ("M17-policy-cache-written-through-ro", "/repo/pkg/core/native/policy.go",
   "	setIntWithKey(p.ID, ic.DAO, feePerByteKey, value)\n	cache := ic.DAO.GetRWCache(p.ID).(*PolicyCache)", "	setIntWithKey(p.ID, ic.DAO, feePerByteKey, value)\n	cache := ic.DAO.GetROCache(p.ID).(*PolicyCache)"),
+ ("M18-getprivate-shares-cache-map", "/repo/pkg/core/dao/dao.go",
+  "	d.nativeCache = make(map[int32]NativeContractCache)\n	return d", "	d.nativeCache = maps.Clone(dao.nativeCache)\n	return d"),
+ ("M19-vm-reset-keeps-pending-exception", "/repo/pkg/vm/vm.go",
+  "	v.estack.elems = v.estack.elems[:0]\n	v.uncaughtException = nil\n", "	v.estack.elems = v.estack.elems[:0]\n"),
+ ("M20-designation-cache-updated-through-ro", "/repo/pkg/core/native/designate.go",
+  "	cache := ic.DAO.GetRWCache(s.ID).(*DesignationCache)\n	err = s.updateCachedRoleData(cache, ic.DAO, r)", "	cache := ic.DAO.GetROCache(s.ID).(*DesignationCache)\n	err = s.updateCachedRoleData(cache, ic.DAO, r)"),
+ ("M21-whitelist-list-not-cloned", "/repo/pkg/core/native/policy.go",
+  "	dst.whitelistedContracts = slices.Clone(src.whitelistedContracts)\n", ""),
+ ("M22-neo-gaspervote-cache-not-cloned", "/repo/pkg/core/native/native_neo.go",
+  "	dst.gasPerVoteCache = maps.Clone(src.gasPerVoteCache)", "	dst.gasPerVoteCache = src.gasPerVoteCache\n	_ = maps.Clone[map[string]big.Int]"),
+ ("M23-management-update-mutates-cached-contract", "/repo/pkg/core/native/management.go",
+  "	contract = *oldcontract // Make a copy, don't ruin (potentially) cached contract.\n", "	contract = *oldcontract // Make a copy, don't ruin (potentially) cached contract.\n	oldcontract.UpdateCounter++\n	contract.UpdateCounter--\n"),
+ ("M24-neo-cache-votesChanged-through-ro", "/repo/pkg/core/native/native_neo.go",
+  "	cache := d.GetRWCache(n.ID).(*NeoCache)\n	cache.votesChanged = true\n	if acc.VoteTo != nil {", "	cache := d.GetROCache(n.ID).(*NeoCache)\n	cache.votesChanged = true\n	if acc.VoteTo != nil {"),
 ]
 only = sys.argv[1:] 
 env = dict(os.environ, GOFLAGS="-mod=mod", GOPROXY="off")
@@ -67,4 +81,4 @@ for name, path, old, new in MUTS:
     keys = {}
     for l in open(d + "/out/oracle.txt"):
         k = l.split()[1]; keys[k] = keys.get(k, 0) + 1
-    print("%-45s tie-disagreeing cases: %3d (corpus %d)  oracle: %s" % (name, len(cases), len([c for c in cases if c < 35]), keys))
+    print("%-45s tie-disagreeing cases: %3d (corpus %d)  oracle: %s" % (name, len(cases), len([c for c in cases if c < 58]), keys))
